@@ -362,6 +362,15 @@ Definition mod_env_ok (E : menv) (m : modifier) (c : contact) : bool :=
   | _ => true
   end.
 
+(* the well-formedness premises of the theorems (proofs/GroupsProofs.v wf_contact, proofs/ModifiersProofs.v mod_wf), as
+   computable tests evaluated on every case of the correspondence run *)
+Fixpoint nodupN (l : list N) : bool :=
+  match l with [] => true | x :: rest => negb (existsb (N.eqb x) rest) && nodupN rest end.
+Definition wf_contact_b (E : menv) (c : contact) : bool :=
+  nodupN (c_groups c) && forallb (fun g => existsb (N.eqb g) (all_groups E)) (c_groups c).
+Definition mod_wf_b (E : menv) (m : modifier) : bool :=
+  match m with MGroups gs _ => forallb (fun g => existsb (N.eqb g) (all_groups E)) gs | _ => true end.
+
 (* the channel pointer of every URN is the channel its raw form names: what reading the marshalled contact back
    (flows.ParseRawURN) produces; [chan_env_ok]: SetChannel writes the channel it is given into the raw URN (computable,
    evaluated on every case of the correspondence run) and, since fix F3m, nothing else: scheme, path and display — the
